@@ -127,10 +127,10 @@ PROPS = {
     "C08": dict(
         level="proof",
         level_text="Unbounded deductive proof (Verus) that the real tls_state_transition / tls_state_transition_handshake bodies equal the documented transition table for every state, direction and message value (so for every finite message sequence and independent of message contents); the table itself satisfies proved sanity lemmas (each documented flow reaches SessionEncrypted, direction exclusivity, absorbing states, alert and HelloRequest rules).",
-        level_note="Trusted: Verus+Z3; the hand-written table oracle (contracts/states_table.rs); extraction rewrites R0 (comments/attrs), R1 (&Path(..) patterns -> Path(..), default binding modes), R3 (Structural on PartialEq+Eq derives), R5 (newtype_enum! -> associated consts), R6 (named return) - logged as diffs in the evidence; fidelity of the extract is cross-checked in the thorough tier by Kani harnesses fd_states_cells_* on the real compiled function (all 25x22x2 cells, all alert bytes).",
+        level_note="Trusted: Verus+Z3; the hand-written table oracle (contracts/states_table.rs); extraction rewrites R0 (comments/attrs), R1 (&Path(..) patterns -> Path(..), default binding modes), R3 (Structural on PartialEq+Eq derives), R5 (newtype_enum! -> associated consts), R6 (named return) - logged as diffs in the evidence; fidelity of the extract is cross-checked by Kani harnesses fd_states_cells_* on the real compiled function (all 25x22x2 cells, all alert bytes).",
         technique="contract-based deductive verification: Verus postcondition on mechanically extracted code; Kani full-domain harness on the compiled code for witnesses",
         verus=["states"],
-        kani=[dict(quick=[], thorough=["fd_states_cells_%d" % k for k in range(5)], paired=["fd_states_cells_%d" % k for k in range(5)], timeout=900)],
+        kani=[dict(quick=["fd_states_cells_%d" % k for k in range(5)], paired=["fd_states_cells_%d" % k for k in range(5)], timeout=900)],
         paired={"states": ["fd_states_cells_%d" % k for k in range(5)]},
         explanation="tls_state_transition and tls_state_transition_handshake are sliced out of /repo/src/tls_states.rs together with every message type and proved (Verus) equal to a transition table written from the property, for all states, directions and message contents; history clauses follow from recursive lemmas over the table",
         trusted=["the transition table in /verif/verus/units/states.py (oracle transcribed by hand from the property statement; sanity lemmas about it are proved)"],
